@@ -737,6 +737,7 @@ type histOpts struct {
 	preTables          int // tables created up front (7 user tables split the page table's root leaf)
 	preRows            int // rows loaded into each of those tables up front (by INSERTs of at most maxRows rows)
 	keyed              bool // tables (k int, v varchar) with k = 0, 1, 2, ...; statements address single rows or short key ranges
+	wideEnd            bool // (keyed) the history ends with one UPDATE of every row of the largest table: more pages than a small cache holds
 }
 
 func runHistory(cfg *config, id int, r *hx.Rng, o histOpts) {
@@ -978,6 +979,15 @@ func runHistory(cfg *config, id int, r *hx.Rng, o histOpts) {
 			d.roots() // the trees recovery rebuilt are well formed (C11)
 		}
 	}
+	if o.wideEnd && o.keyed && len(tables) > 1 {
+		// a statement whose changed pages exceed a small capacity must be REFUSED there (the capacity check
+		// then skips the rest), never acknowledged with some of its changes dropped
+		d.stmt(fmt.Sprintf("UPDATE %s SET v = 'wide'", tables[1].name))
+		d.flush()
+		d.selectAll(tables[1].name)
+		d.stmt(fmt.Sprintf("DELETE FROM %s WHERE k >= 0", tables[1].name))
+		d.flush()
+	}
 	d.selectEvery()
 	d.dump()
 	d.roots()
@@ -991,6 +1001,65 @@ func runHistory(cfg *config, id int, r *hx.Rng, o histOpts) {
 // runPointOps: a table of 13-60 rows (two or three levels of pages), then every row deleted or
 // rewritten by a statement that selects exactly that row - in particular the rows whose key is a
 // separator in an internal node, first, middle and last.
+// runStampCrash: the page stamps of every kind of logged change, observed through recovery.  A
+// statement changes a page; the page is flushed with its stamp; ONE more statement changes the same
+// page and is only in the log when the process dies.  Recovery must replay exactly that statement: a
+// stamp that is too high (the change and its stamp taken from different counters) makes recovery skip
+// an acknowledged statement, one that is too low makes it apply a change twice.
+func runStampCrash(cfg *config, id int, r *hx.Rng) {
+	cfg.tr.Case(id)
+	d := &rdb{cfg: cfg, name: fmt.Sprintf("st%d", id)}
+	defer d.close()
+	d.createdb()
+	t := &gtable{name: "t1", cols: []gcol{{"c0", "int"}, {"c1", "varchar"}}}
+	d.stmt(createText(t))
+	next := 0
+	ins := func(k int) {
+		var rs [][]interface{}
+		for i := 0; i < k; i++ {
+			rs = append(rs, []interface{}{int64(next), fmt.Sprintf("v%d", next)})
+			next++
+		}
+		d.stmt(insertText(t, rs, false))
+	}
+	ins(r.Range(2, 4))
+	kinds := []string{"insert", "update", "delete"}
+	rounds := r.Range(3, 7)
+	for i := 0; i < rounds; i++ {
+		first, second := kinds[r.Intn(3)], kinds[r.Intn(3)]
+		for j, k := range []string{first, second} {
+			switch k {
+			case "insert":
+				ins(1)
+			case "update":
+				d.stmt(fmt.Sprintf("UPDATE t1 SET c1 = 'w%d_%d' WHERE c0 = %d", i, j, r.Intn(next)))
+			case "delete":
+				// (a row that may be gone already: then nothing is logged, also a case)
+				d.stmt(fmt.Sprintf("DELETE FROM t1 WHERE c0 = %d", r.Intn(next)))
+			}
+			if j == 0 {
+				d.flush()
+			}
+		}
+		d.crash()
+		if d.recoverDB() != "ok" {
+			d.selectEvery()
+			d.dump()
+			return
+		}
+		d.selectEvery()
+		if r.Chance(1, 3) {
+			// the table keeps to one leaf most of the time (the stamp of THE page is what counts); now
+			// and then it grows
+			ins(r.Range(1, 3))
+		}
+	}
+	d.selectEvery()
+	d.dump()
+	cfg.st.Seen("stamp-crash", true)
+	cfg.st.Add("statements", 2*rounds)
+}
+
 func runPointOps(cfg *config, id int, r *hx.Rng) {
 	cfg.tr.Case(id)
 	d := &rdb{cfg: cfg, name: fmt.Sprintf("pt%d", id)}
@@ -1245,6 +1314,10 @@ func runDB(cfg *config) {
 		}
 	case "c02":
 		n := 12 * cfg.scale
+		for i := 0; i < 4*cfg.scale; i++ {
+			id++
+			runStampCrash(cfg, id, r.Fork())
+		}
 		if cfg.tier == "thorough" {
 			// a tree deep enough for an internal-node split, with crashes and recoveries on the way
 			id++
@@ -1804,7 +1877,7 @@ func runCacheSizes(cfg *config, id int, r *hx.Rng, big bool, medium bool) {
 		// a database several times larger than the small capacities from the start: two tables of 100-160
 		// rows (25-40 leaves each, three levels), so that every scan evicts and most rows a statement
 		// changes sit on pages that were not resident when it began
-		o = histOpts{stmts: r.Range(120, 220), keyed: true, preTables: []int{2, 6, 8}[r.Intn(3)], preRows: r.Range(100, 160), maxTables: 8, maxCols: 3, maxRows: 3, pFlush: 100, dumpEvery: 60, selectEvery: 25}
+		o = histOpts{stmts: r.Range(120, 220), keyed: true, wideEnd: true, preTables: []int{2, 6, 8}[r.Intn(3)], preRows: r.Range(100, 160), maxTables: 8, maxCols: 3, maxRows: 3, pFlush: 100, dumpEvery: 60, selectEvery: 25}
 		caps = []int{10, 12, 16, 24, 40}
 	}
 	if big {
